@@ -1,4 +1,5 @@
 """C04 - accepted programs are well-formed; every rule violation is diagnosed (structural clauses)."""
+import os
 import re
 
 from mirlib import AnchorMissing, path_matches, op_place, const_int
@@ -6,6 +7,8 @@ from helpers import aggregates, enum_switches, arm, vexpr, calls_matching, edge_
 import guards
 import rule_scopes
 from props import c20
+
+VERIF = os.path.abspath(os.path.join(os.path.dirname(os.path.abspath(__file__)), '..', '..', '..'))
 
 EXPLANATION = (
     'C04 (acceptance of particular programs and its converse) needs a reference checker and is not decided. Decided on the MIR of slicec: '
@@ -313,6 +316,44 @@ def r_parser_rule_preconditions(r, prog):
     guards.evaluate(r, prog, rule_scopes.guards_parser_rules, 'guards_parser_rules.json', 35)
 
 
+def validator_inputs(prog):
+    """visit method -> sorted list of 'callee(arg, arg, ...)' for the calls of functions of slicec::validators made by the validating visitor"""
+    out = {}
+    for f in prog.fns.values():
+        m = re.match(r"^<slicec::validators::ValidatorVisitor<'a> as slicec::visitor::Visitor>::(visit_\w+)$", f.path)
+        if not m:
+            continue
+        calls = []
+        for c in f.calls():
+            res = c.resolved or c.callee or ''
+            if f.blocks[c.bb].get('cleanup') or not res.startswith('slicec::validators::') or '{closure' in res:
+                continue
+            calls.append('%s(%s)' % (re.sub(r'::<.*?>', '', res).rsplit('::', 1)[-1], ', '.join(vexpr(f, a, depth=6) for a in c.args)))
+        out[m.group(1)] = sorted(calls)
+    return out
+
+
+def r_validator_inputs(r, prog):
+    """Each validator decides about what it is handed. Handing it less (the direct bases instead of all bases, the fields instead of the
+    members, one list where two are compared) makes the rule apply to fewer cases while every condition inside the validator is unchanged."""
+    import json as _json
+    led = _json.load(open(os.path.join(VERIF, 'ledgers', 'validator_inputs.json')))['calls']
+    now = validator_inputs(prog)
+    if len(now) < 10:
+        raise AnchorMissing('visit methods of the validating visitor (found %d)' % len(now))
+    for meth in sorted(set(led) | set(now)):
+        a, b = led.get(meth, []), now.get(meth, [])
+        if a == b:
+            r.ok('%s: %d validator call(s) with the recorded inputs' % (meth, len(b)))
+            continue
+        gone = [x for x in a if x not in b]
+        new = [x for x in b if x not in a]
+        f = prog.fns.get("<slicec::validators::ValidatorVisitor<'a> as slicec::visitor::Visitor>::" + meth)
+        r.finding('validator-input-changed:%s' % meth, f.span if f else '-',
+                  '%s no longer calls %s and now calls %s: a validator that is handed something else applies its rule to other elements than before' % (meth, gone, new))
+    r.floor(10)
+
+
 def run(ctx):
     prog = ctx.prog
     ctx.run_rule('C04.1a', 'T5', 'every validator is wired to every element kind it applies to', r_wiring, prog)
@@ -322,5 +363,6 @@ def run(ctx):
     ctx.run_rule('C04.3', 'T5', 'every rule has a producer', r_every_rule_has_a_producer, prog)
     ctx.run_rule('C04.4', 'T5', 'attribute pipeline: parsed set = AttributeKind impls; unknown directives reported', r_attribute_pipeline, prog)
     ctx.run_rule('C04.5', 'T6', 'numeric tables: integral set, bounds, tag range, implicit enum bounds', r_numeric_tables, prog)
+    ctx.run_rule('C04.7', 'T13', 'what the validating visitor hands to each validator (input ledger)', r_validator_inputs, prog)
     ctx.run_rule('C04.6a', 'T13', 'rule-precondition ledger of the validators and attribute types', r_rule_preconditions, prog)
     ctx.run_rule('C04.6b', 'T13', 'rule-precondition ledger of the parser-level rules (module rule, tags, literals, return tuples)', r_parser_rule_preconditions, prog)
